@@ -1,38 +1,44 @@
 #!/bin/bash
-# usage: tools/try_all.sh <patch.diff>  -- applies the patch, runs EVERY property's quick check once (shared extraction), reverts.
+# usage: [SEED_REPO=<git checkout of gimli>] tools/try_all.sh <patch.diff>
+# Applies the patch to the checkout (default /repo), runs EVERY property's quick check against it
+# (one shared fact extraction), reverts the patch.  Maintainer tool, not a registered check.
 set -u
 patch="$1"
-cd /repo || exit 9
-if ! git diff --quiet; then echo "/repo dirty"; exit 9; fi
+REPO="${SEED_REPO:-/repo}"
+V="$(cd "$(dirname "$0")/.." && pwd)"
+cd "$REPO" || exit 9
+if ! git diff --quiet; then echo "$REPO dirty"; exit 9; fi
 if ! git apply --check "$patch" 2>/dev/null; then echo "patch does not apply"; exit 8; fi
 git apply "$patch"
-trap 'git -C /repo checkout -- . ; git -C /repo clean -fdq src' EXIT
-cd /verif
-python3 - <<'PY'
-import sys, shutil, os, subprocess
-sys.path.insert(0, '/verif')
+trap 'git -C "$REPO" checkout -- . ; git -C "$REPO" clean -fdq src' EXIT
+cd "$V"
+F=$(mktemp -d /tmp/seedfacts.XXXX)
+export VERIF_REPO="$REPO"
+python3 - "$F" <<'PY'
+import sys, shutil, os
+sys.path.insert(0, os.getcwd())
 from rules import core
-ex = core.Extraction('/repo')
+ex = core.Extraction(os.environ['VERIF_REPO'])
 try:
     g, fx = ex.main()
-    os.makedirs('/tmp/seedfacts', exist_ok=True)
-    shutil.copy(os.path.join(ex.tmp, 'out-main', 'gimli.facts.json'), '/tmp/seedfacts/')
-    shutil.copy(os.path.join(ex.tmp, 'out-main', 'verif_fixture.facts.json'), '/tmp/seedfacts/')
+    shutil.copy(os.path.join(ex.tmp, 'out-main', 'gimli.facts.json'), sys.argv[1])
+    shutil.copy(os.path.join(ex.tmp, 'out-main', 'verif_fixture.facts.json'), sys.argv[1])
 except core.CannotDecide as e:
     print('EXTRACTION FAILED', e)
     sys.exit(3)
 finally:
     ex.close()
 PY
-[ $? -ne 0 ] && exit 3
+if [ $? -ne 0 ]; then rm -rf "$F"; exit 3; fi
 caught=""
 for i in $(seq -w 1 20); do
   p=C$i
-  if [ "$p" = "C10" ] || [ "$p" = "C20" ]; then out=$(./check $p 2>&1); else out=$(./check $p --facts /tmp/seedfacts 2>&1); fi
+  out=$(VERIF_WITNESS_REPO="$REPO" ./check $p --facts "$F" --repo "$REPO" 2>&1)
   rc=$?
   if [ $rc -ne 0 ]; then
     caught="$caught $p(rc=$rc)"
     echo "$out" | grep -v "^VIOLATION\|^KNOWN-FINDING\|WARNING conda" | head -${SEED_LINES:-2} | cut -c1-330 | sed "s/^/   [$p] /"
   fi
 done
+rm -rf "$F"
 echo "CAUGHT BY:$caught"
